@@ -4,7 +4,7 @@ PROPS["C08"] = dict(
               "bounded-exhaustive call sequences",
     rule="case = (shape in {Cache[string,int], ECache[[]string,string,int] with inner key = lower-cased join so that 3 distinct PKs "
          "collide per key, ExpirableCache[string,*item] whose expiry flag is owned by the harness}, capacity, key alphabet size, "
-         "nil-or-not delete callback, op list over GetOrCreate(key, PK variant, create outcome ok|error) / Remove(key, PK variant) / "
+         "nil-or-not delete callback, op list over GetOrCreate(key, PK variant, create outcome ok|error, expirable only: Born = 0 or a run of 1..4) / Remove(key, PK variant) / "
          "Clear / mark-a-resident-item-expired (expirable only)) followed by a fixed epilogue (capacity insertions of fresh keys, "
          "each of which must evict the then least recently used entry, then a final Clear and the created/deleted ledger balance). "
          "Exhaustive over the full alphabet for the cells listed in exhaustive_parts (2 keys x capacity 1-2 for every shape, 3-4 keys x "
@@ -12,15 +12,26 @@ PROPS["C08"] = dict(
          "of up to 80 (thorough 160) calls, 2-6 keys for capacities 1-4, longer lists for capacities 5-8 and 64. "
          "non-trivial = an eviction took an entry that was not the oldest-created resident (a hit changed which entry is evicted "
          "later), or a failed creation happened between two hits, or a successful insertion followed a Clear that removed something; "
-         "distinct = FNV hash of (shape, capacity, keys, flags, op list). Excluded: items that are already expired when the create "
-         "function returns them and the residency of a stale item after a failed re-creation (neither is determined by the "
-         "documentation; the second is followed, not asserted); concurrency (C09). GetOrCreate may carry a re-entrant create function: a nested program of at most 2 calls (GetOrCreate, Remove, rarely Clear; at most 2 levels deep) on other keys of the same cache, run by the create function before its own outcome (never on a key in flight: the single-flight table would make the call wait for itself); reference: the nested calls are ordinary calls at that moment, then the outer value is inserted as most recently used with eviction of the then least recently used entry. The ecache shape also covers reference-like PKs whose memory the caller recycles: the harness keeps two reusable []string key buffers and, in half of the ecache cases, makes two thirds of its GetOrCreate/Remove calls (also nested ones) through a buffer after overwriting its content with the call's key text, so PKs stored by earlier calls are mutated behind the cache; residency, hits, eviction order and capacity must follow the inner key as computed at call time.",
+         "distinct = FNV hash of (shape, capacity, keys, flags, op list). Items that are born expired (expirable shape): a GetOrCreate with Born = n > 0 (one call in four, "
+         "also nested ones; exhaustive: two extra cells of 2 keys x capacity 1-2 whose alphabet also has Born 1 and Born 3 per key) makes the next n successful creations FOR ITS KEY return an item whose expiry has already passed; the run belongs to the key and "
+         "is consumed by this call and by the later calls that create for the key, so histories hold runs of 1..4 consecutive stale creations for one key, inside one call and across calls. "
+         "Reference, compared exactly per call (number and argument of the create calls, delete callbacks, returned value): a miss whose creation is born expired inserts it (evicting the least "
+         "recently used entry if full), removes it again (one delete callback for it) and calls create exactly once more; a stale resident is removed (one callback) and created once; in both "
+         "cases what the one replacement creation returns is returned and resident as it is, stale or not - never a third create call or a second callback for the key in one call; a later "
+         "GetOrCreate finds it stale and replaces it once again. A failing create outcome applies to every create call of the op (so a born-expired item is never followed by a failed replacement). "
+         "Excluded: the residency of a stale item after a failed re-creation (not determined by the "
+         "documentation; followed, not asserted); concurrency (C09). GetOrCreate may carry a re-entrant create function: a nested program of at most 2 calls (GetOrCreate, Remove, rarely Clear; at most 2 levels deep) on other keys of the same cache, run by the create function before its own outcome (never on a key in flight: the single-flight table would make the call wait for itself); reference: the nested calls are ordinary calls at that moment, then the outer value is inserted as most recently used with eviction of the then least recently used entry. The ecache shape also covers reference-like PKs whose memory the caller recycles: the harness keeps two reusable []string key buffers and, in half of the ecache cases, makes two thirds of its GetOrCreate/Remove calls (also nested ones) through a buffer after overwriting its content with the call's key text, so PKs stored by earlier calls are mutated behind the cache; residency, hits, eviction order and capacity must follow the inner key as computed at call time.",
     assumptions=["reference LRU written from the C08 statement and the comments of ecache.go / expirable.go; residency is probed only "
                  "through return values, create-call counts and delete callbacks",
                  "ECache: the PK handed to the delete callback is the one stored at creation, a hit through another PK with the same inner "
                  "key returns the stored value without calling create (ecache.go stores pair{pk,v})",
                  "ExpirableCache: a stale item is only replaced when GetOrCreate touches it; until then it is an ordinary resident for "
                  "Remove/Clear/eviction order; expiry is a harness-controlled fact (GetExpiresAt returns year 1 or year 9000), no clock decision",
+                 "ExpirableCache, items that are already expired when the create function returns them: the type comment promises that the wrapper 'checks if value reached expires at timestamp and "
+                 "re-adds it to the cache by calling the createNewF' (one re-add by one create call, after the C08 statement's one delete callback for the entry that leaves by expiry replacement); "
+                 "that holds for a value the cache has just created as for a resident one (documented). The comment is silent on whether the replacement is looked at again in the same call: "
+                 "there the unchanged code is the reference (expirable.go: Remove, then 'call get or create again' on the embedded cache, result returned unchecked - at most two create calls and "
+                 "one replacement callback per call, the stale replacement is dealt with by the next call)",
                  "the order of the delete callbacks inside one Clear is not asserted (undocumented)"],
     units=[
         dict(name="exhaustive", run="^TestC08Exhaustive$", shards=(4, 16), timeout=(120, 900)),
@@ -30,7 +41,7 @@ PROPS["C08"] = dict(
 
 LEVEL_TEXT["C08"] = (
     "Generated-input search with an exact oracle: every call sequence over the complete op alphabet (keys x create outcome x PK "
-    "variant, Remove, Clear, expire) up to the depth bound for the small cells listed in the evidence, plus hundreds of thousands of "
+    "variant x born-expired run, Remove, Clear, expire) up to the depth bound for the small cells listed in the evidence, plus hundreds of thousands of "
     "random sequences for capacities 1-8 and 64 on all three cache shapes, are compared call by call (return value, error identity, "
     "create calls and their argument, exact delete callbacks) with a reference LRU, the recency order is read back through "
     "evictions at the end of every case and the created/deleted ledger is balanced after a final Clear. No counterexample among the "
